@@ -20,13 +20,13 @@ TECHNIQUE = 'runtime monitoring: post-condition on every frame returned by the r
 LEVEL = "exploration"
 CASE_TIMEOUT = 1500
 RULE = ("daily and billing models (parameter-built for every split layout and shape; a few fitted) x reporting sets with every pattern of "
-        "{temperature NaN, +-inf, usage NaN} x {isolated, runs, first/last row, whole month} x billing aggregations {none, monthly, bimonthly} x "
+        "{temperature NaN, +-inf, usage NaN} x {isolated, runs, first/last row, whole month, every day, no day with both temperature and usage} x billing aggregations {none, monthly, bimonthly} x "
         "what the same model object predicted before {nothing, a temperature-only set, a set with usage gaps, both}; "
         "every returned frame is judged.  distinct_nontrivial = distinct (family, split layout, defect pattern, aggregation) frames that "
         "contained at least one row without temperature or without usage.")
 ASSUMPTIONS = ["'has a value' means finite (NaN and +-inf are missing)", "column sums skip missing values, as the documentation's df.sum() does"]
 REQUIRED_REACH = {"post.predict_frame": 60, "clause.rowwise_mask": 40, "clause.sum_identity": 60, "rows.temperature_missing_with_usage": 100,
-                  "rows.usage_missing": 50, "agg.monthly": 6, "agg.bimonthly": 6, "history.after_temperature_only": 12}
+                  "rows.usage_missing": 50, "agg.monthly": 6, "agg.bimonthly": 6, "history.after_temperature_only": 12, "frame.usage_supplied_but_no_complete_day": 2}
 
 VIOL = []
 CUR = {}
@@ -42,6 +42,8 @@ def judge_frame(p, fam, agg=None, daily=None):
     I.reach("post.predict_frame")
     if "observed" not in p.columns:
         return
+    if CUR.get("no_complete_day") and agg is None:
+        I.reach("frame.usage_supplied_but_no_complete_day")
     o = p["observed"].to_numpy(dtype=float)
     q = p["predicted"].to_numpy(dtype=float)
     fo, fq = np.isfinite(o), np.isfinite(q)
@@ -125,6 +127,9 @@ def defect_frame(rng, tz, start, n, pattern, with_observed=True):
         if "o_run" in pattern:
             a = int(rng.integers(0, n - 5))
             o[a:a + int(rng.integers(2, 25))] = np.nan
+        if "o_disjoint" in pattern:
+            # usage only on days without temperature, temperature only on days without usage: no complete day at all
+            o[~bad] = np.nan
         if "o_zero" in pattern:
             o[rng.choice(n, size=3, replace=False)] = 0.0
         df["observed"] = o
@@ -132,7 +137,7 @@ def defect_frame(rng, tz, start, n, pattern, with_observed=True):
 
 
 PATTERNS = [["t_isolated"], ["t_run"], ["t_first"], ["t_last"], ["t_month"], ["t_isolated", "t_inf"], ["o_isolated"], ["o_run"],
-            ["t_isolated", "o_isolated"], ["t_run", "o_run", "t_inf"], ["t_first", "t_last", "o_zero"], ["t_month", "o_run"], [], ["t_all"]]
+            ["t_isolated", "o_isolated"], ["t_run", "o_run", "t_inf"], ["t_first", "t_last", "o_zero"], ["t_month", "o_run"], [], ["t_all"], ["t_run", "o_disjoint"], ["t_isolated", "t_month", "o_disjoint"]]
 
 
 # what the same model object was used for before the judged predict (state must not carry over)
@@ -146,7 +151,7 @@ def gen_cases(tier, seed):
     n = 48 if q else 600
     for i in range(n):
         cases.append(dict(kind="param", family="daily" if i % 3 else "billing", split=splits[i % len(splits)], pattern=PATTERNS[i % len(PATTERNS)],
-                          tz=["America/Chicago", "UTC", "Australia/Sydney", "Europe/London", "Asia/Kolkata"][i % 5], n=i, with_observed=bool(i % 7 != 6),
+                          tz=["America/Chicago", "UTC", "Australia/Sydney", "Europe/London", "Asia/Kolkata"][i % 5], n=i, with_observed=bool(i % 9 != 8),
                           prior=PRIORS[(i // 3) % len(PRIORS)]))
     nf = 4 if q else 40
     for i in range(nf):
@@ -201,6 +206,7 @@ def run_case(spec):
         start = str((pd.Timestamp("2019-01-01") + pd.Timedelta(days=int(rng.integers(0, 400)))).date())
         n = int(rng.choice([31, 90, 200, 366]))
         df = defect_frame(rng, tz, start, n, spec["pattern"], with_observed=spec["with_observed"])
+        CUR["no_complete_day"] = bool(spec["with_observed"] and not (np.isfinite(df["temperature"].to_numpy(dtype=float)) & np.isfinite(df["observed"].to_numpy(dtype=float))).any())
         if fam == "billing":
             data = em.BillingReportingData(df, is_electricity_data=True)
             p = m.predict(data, ignore_disqualification=True)
